@@ -1,9 +1,61 @@
 import Lean.Data.Json
-/-! Line-protocol handler for property C04 (model side of the correspondence). -/
+import SpoxModel.Model.BuildAlg
+/-! Line-protocol handler for C04: run the `Builder` model on an abstract program and report
+    `graph_topo`, `arguments_of`, `scope_of`, `scope_own`, the flattened nested emission, the
+    structural-check verdict and the error class. Vertices: node `n` ↦ `n`, source of graph `g` ↦ `-1-g`. -/
 namespace Drv.C04
-open Lean
+open Lean BuildAlg
 
-/-- One request (a JSON value) in, one response (a JSON value) out. -/
-def handle (_req : Json) : Json := Json.mkObj [("error", "unimplemented")]
+def parseNode (j : Json) : Except String PNode := do
+  let a ← j.getObjValAs? Bool "a"
+  let i ← j.getObjValAs? (List Nat) "i"
+  let s ← j.getObjValAs? (List Nat) "s"
+  return ⟨a, i, s⟩
+
+def parseGraph (j : Json) : Except String PGraph := do
+  let r ← j.getObjValAs? (List Nat) "res"
+  let args : Option (List Nat) := match j.getObjValAs? (List Nat) "args" with
+    | .ok l => some l
+    | .error _ => none
+  return ⟨args, r⟩
+
+def parseProg (req : Json) : Except String Prog := do
+  let ns ← req.getObjValAs? (Array Json) "nodes"
+  let gs ← req.getObjValAs? (Array Json) "graphs"
+  return ⟨← ns.toList.mapM parseNode, ← gs.toList.mapM parseGraph⟩
+
+def vJ : V → Json
+  | .node n => toJson (Int.ofNat n)
+  | .src g => toJson (-1 - Int.ofNat g)
+
+def evJ : Ev → Json
+  | .enter g => toJson [Json.str "enter", toJson g]
+  | .leave g => toJson [Json.str "leave", toJson g]
+  | .arg a => toJson [Json.str "arg", toJson a]
+  | .emit v => toJson [Json.str "emit", vJ v]
+
+def errJ : Err → Json
+  | .build why => Json.mkObj [("ok", false), ("err", "Build"), ("why", why)]
+  | .scope => Json.mkObj [("ok", false), ("err", "Scope"), ("why", "second-introduction")]
+  | .key => Json.mkObj [("ok", false), ("err", "Key"), ("why", "not-introduced")]
+  | .fuel => Json.mkObj [("ok", false), ("err", "Fuel"), ("why", "model-out-of-fuel")]
+
+def handle (req : Json) : Json :=
+  match parseProg req with
+  | .error e => Json.mkObj [("error", e)]
+  | .ok p =>
+    let wf := p.WFb
+    match build p with
+    | .error e => (errJ e).setObjVal! "wf" wf
+    | .ok (b, tr) =>
+      Json.mkObj [
+        ("ok", true), ("wf", wf),
+        ("graph_topo", toJson b.graphTopo),
+        ("args_of", toJson (b.graphTopo.map (fun g => (g, lookupL b.argsOf g)))),
+        ("scope_of", Json.arr (b.scopeOf.map (fun e => Json.arr #[vJ e.1, toJson e.2])).toArray),
+        ("scope_own", Json.arr (b.graphTopo.map (fun g =>
+            Json.arr #[toJson g, Json.arr ((b.scopeOwn g).map vJ).toArray])).toArray),
+        ("trace", Json.arr (tr.map evJ).toArray),
+        ("struct_ok", structOk p tr [])]
 
 end Drv.C04
